@@ -1,5 +1,6 @@
 import SamplyModel.Lemmas.FileCreationRetry
 import SamplyModel.Lemmas.DownloadWrite
+import SamplyModel.Lemmas.FileCreationAsync
 /-!
 # C16 — cache files appear atomically: complete or not at all
 
@@ -317,3 +318,109 @@ theorem C16_download_without_flush_loses_last_error :
 
 /-- non-vacuity: a two-piece download with healthy disk satisfies the right-hand side of the iff -/
 example : (DL.run ⟨fun _ => true, fun _ => 0⟩ true [some [1, 2], some [3]]).1 = .ok 3 := by decide
+
+
+/-! ## The callbacks as they are: writes deferred to tokio's blocking pool (`Model/FileCreationAsync.lean`)
+
+Both real callbacks wrap the temp file in a `tokio::fs::File`; a write is handed to the blocking pool and
+is executed later, and dropping the file does not wait for it. `FCA.next joinOnDrop` keeps the protocol
+state of `FC` and adds the real inode contents and the queue of writes not yet executed;
+`joinOnDrop = false` is the code as it is. -/
+
+/-- Whatever the blocking pool does with the deferred writes, the PROTOCOL state (program counters, the
+three names, flock owners, winners) of the deferred-write system is a reachable state of `FC`: hence
+`C16_mutex`, `C16_at_most_once`, `C16_same_lock_inode`, `C16_lock_unlinked_only_when_dest_exists`,
+`C16_quiet_holds_no_lock` hold for the real callbacks as well (both values of `joinOnDrop`). -/
+theorem C16_async_protocol_is_FC (m : Bool) (pl : Pid → Content) (s : FCA.State)
+    (h : FCA.Reachable m pl s) : Reachable pl s.base :=
+  FCA.base_reachable h
+
+/-- … e.g. mutual exclusion and at-most-one rename for the deferred-write system -/
+theorem C16_async_mutex_once (m : Bool) (pl : Pid → Content) (s : FCA.State) (h : FCA.Reachable m pl s) :
+    (∀ p q, inCS (s.base.pc p) = true → inCS (s.base.pc q) = true → p = q ∧ s.base.dest = none) ∧
+    s.base.winners.length ≤ 1 :=
+  ⟨fun p q hp hq => C16_mutex pl s.base (FCA.base_reachable h) p q hp hq,
+   (C16_at_most_once pl s.base (FCA.base_reachable h)).1⟩
+
+/-- creator 0 hands its first chunk to the blocking pool and is cancelled (`flush().await` /
+`stream.read().await` dropped): lock released, write still queued. Creator 2 then creates the file —
+lock, stat, `open(.part, O_TRUNC)` on the SAME inode, three writes, flush, rename, unlock — and returns
+"created". Then the pool executes creator 0's write. -/
+def C16_stragglerSchedule : List FCA.Act :=
+  [.base (.step 0), .base (.step 0), .base (.step 0), .base (.step 0),   -- 0: lock file, flock, stat, open .part
+   .base (.step 0),                                                       -- 0: write_all [1] -> queued
+   .base (.cancel 0),                                                     -- 0: future dropped
+   .base (.step 2), .base (.step 2), .base (.step 2), .base (.step 2),   -- 2: lock file, flock, stat, open .part
+   .base (.step 2), .base (.step 2), .base (.step 2), .base (.step 2),   -- 2: 30, 40, 50, flush
+   .base (.step 2), .base (.step 2), .base (.step 2)]                     -- 2: rename, close lock, unlink lock
+
+/-- **Finding (C16-cancel-inflight-write).** In the code as it is (`joinOnDrop = false`) the final path is
+NOT stable and NOT atomic under cancellation: after creator 2 has returned "created" with its complete
+payload `[30, 40, 50]` at the final path, the write that the cancelled creator 0 left in the blocking pool
+is executed on the published inode; the final path then holds `[1, 40, 50]`, nobody's payload. (The
+harness reproduces exactly this on the real `.symindex` call site: op `cancelwrite`.) -/
+theorem C16_cancel_with_write_in_flight_breaks_atomicity :
+    ((FCA.run false C16_payload FCA.State.init C16_stragglerSchedule).map fun s =>
+        (s.base.pc 2, s.destDisk, s.inflight.length)) = some (.doneCreated, some [30, 40, 50], 1) ∧
+    ((FCA.run false C16_payload FCA.State.init (C16_stragglerSchedule ++ [.land 0])).map fun s =>
+        (s.base.pc 2, s.destDisk)) = some (.doneCreated, some [1, 40, 50]) := by
+  decide
+
+/-- with `joinOnDrop = true` the same cancellation leaves nothing queued: the schedule ends with the complete
+payload at the final path and there is no write left to execute -/
+example : ((FCA.run true C16_payload FCA.State.init C16_stragglerSchedule).map fun s =>
+    (s.destDisk, s.inflight.length)) = some (some [30, 40, 50], 0) := by decide
+
+/-- **Deferred writes are harmless when a dropped callback waits for its write** (`joinOnDrop = true`: a
+callback that writes synchronously through the `std::fs::File` it is given, or one that joins / flushes its
+`tokio::fs::File` before it is dropped). In every reachable state — any number of creators, every schedule
+of creators and of the blocking pool, every fault, kill and cancellation — the bytes really at the final
+path are the ones the protocol model accounts for, a callback that returned `Ok` has its complete payload
+in the temp file, and at most one write is ever queued. -/
+theorem C16_async_join_on_drop_disk_is_model (pl : Pid → Content) (s : FCA.State)
+    (h : FCA.Reachable true pl s) :
+    s.destDisk = s.base.destContent ∧
+    (∀ p i, s.base.pc p = .wroteOk i → s.partDisk = some (pl p)) ∧
+    s.inflight.length ≤ 1 := by
+  have hA := FCA.ainv_reachable h
+  have hI := inv_reachable (FCA.base_reachable h)
+  refine ⟨?_, ?_, hA.fl1⟩
+  · cases hd : s.base.dest with
+    | none => simp [FCA.State.destDisk, State.destContent, hd]
+    | some j => simp [FCA.State.destDisk, State.destContent, hd, hA.dst j hd]
+  · intro p i hp
+    obtain ⟨j, hj, _⟩ := hI.wrote p i hp
+    simp [FCA.State.partDisk, hj, hA.ok p i hp j hj]
+
+/-- … hence atomicity of the real bytes: the final path does not exist or holds the complete payload of the
+one creator that renamed, -/
+theorem C16_async_join_on_drop_atomic (pl : Pid → Content) (s : FCA.State) (h : FCA.Reachable true pl s) :
+    (s.destDisk = none ∧ s.base.winners = []) ∨
+    ∃ w, s.destDisk = some (pl w) ∧ s.base.winners = [w] := by
+  rw [(C16_async_join_on_drop_disk_is_model pl s h).1]
+  exact C16_atomic pl s.base (FCA.base_reachable h)
+
+/-- every success sees the complete file in the real bytes, -/
+theorem C16_async_join_on_drop_success_sees_complete (pl : Pid → Content) (s : FCA.State)
+    (h : FCA.Reachable true pl s) (p : Pid) :
+    (s.base.pc p = .doneCreated → s.destDisk = some (pl p)) ∧
+    (s.base.pc p = .doneExisting ∨ s.base.pc p = .exUnlinked → ∃ w, s.destDisk = some (pl w)) := by
+  rw [(C16_async_join_on_drop_disk_is_model pl s h).1]
+  exact C16_success_sees_complete pl s.base (FCA.base_reachable h) p
+
+/-- and no later transition — of a creator or of the blocking pool — changes a complete final file. The
+finding above is exactly the failure of this statement for `joinOnDrop = false`. -/
+theorem C16_async_join_on_drop_dest_stable (pl : Pid → Content) (s s' : FCA.State) (a : FCA.Act)
+    (h : FCA.Reachable true pl s) (hn : FCA.next true pl s a = some s') (c : Content)
+    (hc : s.destDisk = some c) : s'.destDisk = some c := by
+  have h' : FCA.Reachable true pl s' := FCA.Reachable.step a h hn
+  rw [(C16_async_join_on_drop_disk_is_model pl s h).1] at hc
+  rw [(C16_async_join_on_drop_disk_is_model pl s' h').1]
+  rcases FCA.next_base hn with hb | ⟨a', hb⟩
+  · rw [hb]; exact hc
+  · exact C16_dest_stable pl s.base s'.base a' (FCA.base_reachable h) hb c hc
+
+/-- non-vacuity: a `joinOnDrop = true` history with a write still queued, a cancellation and a second creator -/
+example : ((FCA.run true C16_payload FCA.State.init
+    [.base (.step 0), .base (.step 0), .base (.step 0), .base (.step 0), .base (.step 0),
+     .base (.step 0)]).map fun s => (s.inflight.length, s.partDisk)) = some (1, some [1]) := by decide
